@@ -87,6 +87,24 @@ def differences(g, path):
     return out
 
 
+def compound_differences():
+    """pairs of nodes that differ in TWO places chosen so that a comparison which folds fields together (a qualified tag,
+    a value looked up with a default, a merged mapping) sees nothing: (label, edit of A's node, edit of B's node)"""
+    def upd(**kw):
+        return lambda x: x.update(kw)
+    return [
+        ("name+prefix (prefix:name spelled in the name)", upd(name="title", prefix="dc"), upd(name="dc:title", prefix=None)),
+        ("attributes (None-valued key vs another key)", upd(attrs=[["lang", "es"], ["id", None]]), upd(attrs=[["lang", "es"], ["scope", "document"]])),
+        ("attributes (empty-valued key vs another key)", upd(attrs=[["lang", "es"], ["id", ""]]), upd(attrs=[["lang", "es"], ["scope", ""]])),
+        ("extras (None-valued key vs another key)", upd(extras=[["p:e", None]]), upd(extras=[["p:f", "w"]])),
+        ("attributes (values swapped between keys)", upd(attrs=[["k", "1"], ["k2", "2"]]), upd(attrs=[["k", "2"], ["k2", "1"]])),
+        ("content/tail (text moved from content to tail)", upd(content="x", tail=None), upd(content=None, tail="x")),
+        ("attributes/extras (entry moved from attributes to extras)", upd(attrs=[["p:e", "w"]], extras=[]), upd(attrs=[], extras=[["p:e", "w"]])),
+        ("content (text vs its repr of None)", upd(content="None"), upd(content=None)),
+        ("name (case only)", upd(name="Title"), upd(name="title")),
+    ]
+
+
 def node_at(root, path):
     for i in path:
         root = root.children[i]
@@ -198,6 +216,18 @@ def check_shape(g, acc):
                                         difference=label.split("_")[0]))
             if r1 != r2:
                 acc.add_problem(problem("not_symmetric", case, expected="same answer both ways", observed=[r1, r2]))
+        for label, fa, fb in compound_differences():
+            core.reset_store()
+            ga, gb = gtree.clone(g), gtree.clone(g)
+            fa(gtree.at(ga, path))
+            fb(gtree.at(gb, path))
+            A, B = gtree.build(ga), gtree.build(gb)
+            n_pairs += 1
+            r1, r2 = eq(A, B), eq(B, A)
+            acc.outcome("diff2:" + label.split(" ")[0])
+            if r1 is not False or r2 is not False:
+                acc.add_problem(problem("difference_not_detected", dict(case0, difference=label, at=list(path)), expected=False,
+                                        observed=[r1, r2], difference="compound:" + label.split(" ")[0]))
         # edits after copy, on either side
         for side in ("copy", "original"):
             core.reset_store()
